@@ -1,5 +1,5 @@
 (* C16 -- Parsing-context queries reflect the real nesting.  Property theorems only. *)
-Require Import Base Token Lexer Tree Parser ParserSpec Grammar NestSpec ParserProofs NestProofs.
+Require Import Base Token Lexer Tree Parser ParserSpec Grammar NestSpec ParserProofs NestProofs RefutedCtx.
 Require Import Gen.Tables.
 
 (* every parse step leaves the context stack exactly as it found it, on every input *)
@@ -41,3 +41,16 @@ Print Assumptions C16_reflects_nesting.
 Theorem C16_lexed_tokens_distinct : forall src toks, tokenize src = Some toks -> NoDup toks.
 Proof. exact lexed_tokens_nodup. Qed.
 Print Assumptions C16_lexed_tokens_distinct.
+
+(* REFUTED CLAUSE (recorded finding KF8 as a theorem; witness evaluated by the kernel): the
+   property expects CurrentContext = Function for a token directly inside a function body.
+   Witness  function f(){let x=1}  with one probe: at `let` the answers are IsInFunction =
+   true and CurrentContext = Block. *)
+Theorem C16_function_body_is_block_refuted :
+  exists src toks p r ev,
+    tokenize src = Some toks /\ m_program p toks = true /\ wf_program p = true /\
+    parse_tokens (cfg_with [SI_Probe 7] []) toks = Some r /\ pr_program r = p /\
+    In ev (ps_log (pr_final r)) /\ t_type (ev_tok ev) = T_LET /\
+    ev_infn ev = true /\ ev_ctx ev = P_BlockContext /\ ev_ctx ev <> P_FunctionContext.
+Proof. exact kf8_function_body_context_refuted. Qed.
+Print Assumptions C16_function_body_is_block_refuted.
